@@ -54,6 +54,11 @@ T = {
     "C09-itime-add-seconds-trunc": ("C09", "second pass of a fold that ends DST at local midnight, in the POSIX-rule era (src/shared/util/itime.rs)", ["C09", "C04"]),
     "C10-micros-per-day-const": ("C10", "Timestamp::round to microseconds with an increment dividing a day but not 86,400,000 (src/util/t.rs)", ["C10"]),
     "C16-day-of-year-table": ("C16", "%j / %U / %W for November of a leap year (src/civil/date.rs)", ["C16", "C01"]),
+    # ---- fourth round: told to avoid every earlier idea for the property and to stay in a narrow corner ----
+    "C06-last-transition-fixed-offset": ("C06", "negative calendar arithmetic from after a zone's last transition to before it (Moscow, Tokyo)", ["C06", "C13"]),
+    "C12-mul-micros-wrong-limit": ("C12", "Span::checked_mul with non-zero microseconds and a factor above the millisecond limit whose product still fits", ["C12"]),
+    "C13-subsec-round-keeps-offset": ("C13", "Zoned::round to a sub-second unit carrying into the exact second of a transition", ["C13", "C10"]),
+    "C20-fixed-subminute-is-utc": ("C20", "TimeZone::fixed with an offset of 1..59 seconds", ["C20"]),
 }
 for sid, (pid, needs, caught) in T.items():
     d = os.path.join(VERIF, "seeded", sid)
